@@ -84,3 +84,7 @@ Fixpoint hex (s : str) : str :=
   | [] => []
   | c :: tl => hexd (c / 16) :: hexd (c mod 16) :: hex tl
   end.
+
+Definition nil_ {A} (l : list A) : bool := match l with [] => true | _ => false end.
+Definition nil_str (s : str) : bool := nil_ s.
+Definition remove_str (x : str) (l : list str) : list str := filter (fun y => negb (str_eqb x y)) l.
